@@ -108,8 +108,18 @@ PROPS = {
                     "sockets, not modelled (except the transferred path's open race, refuted by "
                     "c14_transfer_open_race_counterexample = known finding C14-transfer-open-race); the conn below the ws layer "
                     "accepts a frame whole or fails (C01); the bounded send queue's partial-message defect is repaired by a fix: "
-                    "commit (c14_bounded_queue_partial_counterexample documents the pinned behaviour)",
-            "technique": "Lean 4 proof (invariants over two transition systems, one of them an instance of JobQ) + differential "
+                    "commit (c14_bounded_queue_partial_counterexample documents the pinned behaviour). Not proved / not covered: "
+                    "that all fragments of one WriteMessage are written inside a single hold of the ws mutex is not proved: it is "
+                    "the model's step granularity, tied by lock-set predicates, by the statement-order predicate "
+                    "ws_writemessage_single_hold_across_fragments (one Lock, only the deferred Unlock, nothing between the first "
+                    "and the last writeFrame call; writeFrame's own body never touches the mutex) and by the wd oracle; that the "
+                    "close job is submitted once per connection is assumed from C03/C18; wire order presupposes a single Parse "
+                    "caller per connection (C02); the driver applies flip+notify, finish+next and send+advance as units "
+                    "(interleavings inside these pairs are covered by the theorems only, not executed); e2e cases compare "
+                    "summaries (callback log, groups, whole, exec) and wd cases read the order of the critical sections back from "
+                    "the implementation's wire; the second conjunct of c14_failed_upgrade_no_callbacks is definitional; the TLS "
+                    "upgrade scenarios (2.x) are not run end to end (decision table + source predicate only)",
+            "technique": "Lean 4 proof (invariants over two transition systems, one of them embedding C05's ExecQ) + differential "
                          "correspondence with gates at the model's step granularity + sampled real-socket runs"},
         "lean": ["NbioVerif.Properties.C14"], "drivers": ["wscbdrv"], "harness": ["hwscb"], "cs": cs_stop.C14_CS,
         "runs": [WSCB_RUN],
@@ -151,13 +161,24 @@ PROPS = {
                     "goroutine (pinned counterexample: queued conns stranded). Tied to the code by forced schedules on a real "
                     "nbhttp engine (gated OnOpen, gated listener) and a real ListenerMux with loopback conns, compared with the "
                     "models after every op",
-            "note": "proof on the model, partial: termination is proved in safety form (progress + measure) under fair scheduling "
-                    "and only without registrations racing the snapshot (known finding C18-onopen-outlives-snapshot); release of "
-                    "poller/listener/executor goroutines and of descriptors is measured (one-sided census with settle time), "
-                    "not proved; the HTTP engine is checked by connection closure seen from the clients, its own close "
-                    "notifications are not required at Stop return",
-            "technique": "Lean 4 proof (two invariants + termination measure over a transition system) + differential "
-                         "correspondence with gated callbacks + real-engine runs under a watchdog"},
+            "note": "proof on the model, partial. Core engine: 'Stop returns' is c18_stop_returns (from a settled state without "
+                    "a registration racing the snapshot, every maximal run of engine-internal steps ends returned; runs are "
+                    "bounded by the measure) — it lets only engine-internal steps run after its starting state, closes racing "
+                    "Stop after that point are covered by the piecewise lemmas (accounting, progress, measure), not by the "
+                    "assembled theorem; with a registration racing the snapshot Stop hangs (known finding "
+                    "C18-onopen-outlives-snapshot). The core engine's Shutdown is modelled as Stop (its context select is not "
+                    "modelled). For the HTTP engine termination is stated as per-step enabledness and a per-conn rank, not as "
+                    "one theorem. Listener accepts, dials, in-flight writes and pending timers occur only in the real-engine "
+                    "tier, where the model receives the observed opened/closed counts as inputs; that a stopped listener accepts "
+                    "nothing further is observed in the real tier only (HttpStop: accept is disabled once the listeners are "
+                    "closed; hsim: the late accept); the DialAsync registration-failure path is not a step of the model "
+                    "(executed under C03's dialx, not under Stop; tied here by two predicates and a pinned counterexample). "
+                    "The sim tier compares collapsed phases (opening/live/closed/done + table bit), applies flip+teardown as a "
+                    "unit and does not compare wg/asyncQ/raced/snapIn. Release of poller/listener/executor goroutines and of "
+                    "descriptors is measured (one-sided census with settle time), not proved",
+            "technique": "Lean 4 proof (invariants + termination measure over three transition systems: core Stop, HTTP engine, "
+                         "listener mux) + differential correspondence with gated callbacks and forced schedules + real-engine "
+                         "runs under a watchdog"},
         "lean": ["NbioVerif.Properties.C18", "NbioVerif.Properties.C18Http"], "drivers": ["stopdrv"], "harness": ["hstop"], "cs": cs_stop.C18_CS,
         "runs": [STOP_RUN],
         "oracles": ["c18-"],
@@ -168,7 +189,8 @@ PROPS = {
                 ">= 1 conn existed; lmux case = maxOnlineA x op sequence (dial, takeA/B with blocked consumers, dec, stop) on a "
                 "real ListenerMux; hsim case = nbhttp I/O mode x forced schedule (conn gated inside OnOpen, release, peer close, "
                 "conn accepted after the shutdown flag, stop|shutdown, wait)",
-        "assumptions": ["the Async queue is used through its specification (FIFO, exactly once: JobQ instance, C05/C19)",
+        "assumptions": ["the Async queue is a plain FIFO list in the model; that timer.Async is one (FIFO, exactly once, completes) is "
+                        "C19's c19_async_fifo_exactly_once / c19_async_completes on ExecQ with Kind.async",
                         "HttpStop: closeAllConns is one atomic step (whole loop under engine.mux; its single Close calls touch "
                         "only their own conn and commute with other conns' steps); the executor pool is not saturated (a job "
                         "submitted before onStop runs); lmux: the 65536-slot event channels do not fill up",
@@ -181,8 +203,8 @@ PROPS = {
                         "real-engine cases: the numbers of registered and already closed conns (opened=/closed=) are "
                         "read from the implementation and given to the model, which then predicts Stop's outcome and the "
                         "final counts; they are inputs, not compared outputs",
-                        "DialAsync's addDialer-failure path is not executed by the harness (no way to make epoll_ctl fail on "
-                        "a fresh socket); it is tied by the predicates adddialer_failure_detaches_conn / "
+                        "DialAsync's addDialer-failure path is executed under C03's dialx (hlife), not under Stop by hstop; "
+                        "for C18 it is tied by the predicates adddialer_failure_detaches_conn / "
                         "dial_add_before_register_single_done and c18_dialfail_pinned_counterexample"],
     },
     "C16": {
@@ -197,7 +219,10 @@ PROPS = {
                     "bounded lateness of firing are measured (one-sided, generous bound, 3 re-runs), not proved; HTTP/WS "
                     "keep-alive through real engines is sampled in the thorough tier; defect #20 (write timer survives a "
                     "backlog drained by flush) is repaired by a fix: commit, the model describes the repaired code and "
-                    "c16_pinned_stale_counterexample documents the pinned behaviour",
+                    "c16_pinned_stale_counterexample documents the pinned behaviour; which error value a timer's closure carries "
+                    "(fixed when the timer object is created; Reset keeps it) is not in the model: it is tracked by the driver and "
+                    "checked by c16-error-kind; never-early in real time and closing within a bounded time rest on the timer "
+                    "contract and the oracles, keep-alive renewal is sampled",
             "technique": "Lean 4 proof (invariant over a transition system with ghost 'deadline in force') + differential "
                          "correspondence on real timers"},
         "lean": ["NbioVerif.Properties.C16"], "drivers": ["dldrv"], "harness": ["hdeadline"], "cs": cs_stop.C16_CS,
